@@ -17,6 +17,8 @@ def check(rep):
     n = PR.rule_translation(ctx, focus="control")
     rep.floor("shapes translated and compared with the reference reading", n, 180 if rep.tier == "quick" else 1000)
     PR.rule_trailing_raise(ctx)
+    if rep.tier == "thorough":
+        PR.rule_exhaustive_predicates(ctx)
     rep.assume("Python's own semantics of if/elif/else, comparison and boolean operators on type-compatible values")
     return ("Translation validation on program shapes: for every shape of a systematic family (all 8 comparison and 3 boolean "
             "operators, literal-first operands, else-if chains, nesting in every position, predicates with minimal and redundant "
